@@ -1,1 +1,373 @@
+(* Proofs about Model/Resolve.v (the Go resolution algorithm) and Model/ProtocLookup.v (protoc). *)
+From Coq Require Import List NArith Bool Arith Lia.
+Import ListNotations.
 From PV Require Import Model.Resolve Model.ProtocLookup.
+
+(* ------------------------------------------------------------------ names *)
+Lemma name_eqb_eq a b : name_eqb a b = true <-> a = b.
+Proof.
+  revert b. induction a as [|x a IH]; intros [|y b]; cbn [name_eqb]; split; intros H;
+    try reflexivity; try discriminate.
+  - apply andb_true_iff in H. destruct H as [H1 H2]. apply N.eqb_eq in H1. apply IH in H2. now subst.
+  - injection H as -> ->. rewrite N.eqb_refl. cbn. now apply IH.
+Qed.
+
+Lemma name_eqb_refl a : name_eqb a a = true.
+Proof. now apply name_eqb_eq. Qed.
+
+Lemma name_eqb_neq a b : name_eqb a b = false <-> a <> b.
+Proof.
+  split; intros H.
+  - intros ->. rewrite name_eqb_refl in H. discriminate.
+  - destruct (name_eqb a b) eqn:E; [apply name_eqb_eq in E; contradiction|reflexivity].
+Qed.
+
+Lemma name_eqb_app_cancel p a b : name_eqb (p ++ a) (p ++ b) = name_eqb a b.
+Proof. induction p as [|x p IH]; cbn [app name_eqb]; [reflexivity|]. now rewrite N.eqb_refl, IH. Qed.
+
+Lemma mem_name_In n l : mem_name n l = true <-> In n l.
+Proof.
+  induction l as [|m l IH]; cbn [mem_name In]; [split; [discriminate|tauto]|].
+  rewrite orb_true_iff, IH, name_eqb_eq. split; intros [H|H]; auto.
+Qed.
+
+Lemma assoc_In n l k : assoc n l = Some k -> In n (map fst l).
+Proof.
+  induction l as [|[m j] l IH]; cbn [assoc map fst In]; [discriminate|].
+  destruct (name_eqb n m) eqn:E; [apply name_eqb_eq in E; auto|auto].
+Qed.
+
+Lemma assoc_None n l : assoc n l = None -> ~ In n (map fst l).
+Proof.
+  induction l as [|[m j] l IH]; cbn [assoc map fst In]; [tauto|].
+  destruct (name_eqb n m) eqn:E; [discriminate|]. apply name_eqb_neq in E.
+  intros H [H1|H1]; [now subst|now apply IH].
+Qed.
+
+Lemma In_assoc n l : In n (map fst l) -> exists k, assoc n l = Some k.
+Proof.
+  intros H. destruct (assoc n l) eqn:E; [eauto|]. now apply assoc_None in E.
+Qed.
+
+Lemma has_prefix_length s p : has_prefix s p = true -> (length p <= length s)%nat.
+Proof.
+  revert s. induction p as [|y p IH]; intros [|x s]; cbn [has_prefix length]; try lia; try discriminate.
+  intros H. apply andb_true_iff in H. destruct H as [_ H]. apply IH in H. lia.
+Qed.
+
+Lemma has_prefix_app s p : has_prefix s p = true <-> exists r, s = p ++ r.
+Proof.
+  revert s. induction p as [|y p IH]; intros s; cbn [has_prefix].
+  - split; [eauto|reflexivity].
+  - destruct s as [|x s].
+    + split; [discriminate|]. intros [r H]. discriminate.
+    + rewrite andb_true_iff, N.eqb_eq, IH. split.
+      * intros [-> [r ->]]. now exists r.
+      * intros [r H]. injection H as -> ->. eauto.
+Qed.
+
+Lemma has_prefix_refl s : has_prefix s s = true.
+Proof. apply has_prefix_app. exists []. now rewrite app_nil_r. Qed.
+
+(* ------------------------------------------------------------------ dots *)
+Lemma no_dot_app a b : no_dot (a ++ b) = no_dot a && no_dot b.
+Proof. induction a as [|x a IH]; cbn [app no_dot]; [reflexivity|]. now rewrite IH, andb_assoc. Qed.
+
+Lemma index_dot_none s : index_dot s = None <-> no_dot s = true.
+Proof.
+  induction s as [|c s IH]; cbn [index_dot no_dot]; [tauto|].
+  destruct (N.eqb c dot); cbn [negb andb]; [split; discriminate|].
+  destruct (index_dot s); cbn [option_map]; [split; [discriminate|]|tauto].
+  intros H. apply IH in H. discriminate.
+Qed.
+
+Lemma index_dot_some s p : index_dot s = Some p ->
+  (p < length s)%nat /\ nth_error s p = Some dot /\ no_dot (firstn p s) = true.
+Proof.
+  revert p. induction s as [|c s IH]; intros p; cbn [index_dot]; [discriminate|].
+  destruct (N.eqb c dot) eqn:E.
+  - intros H. injection H as <-. apply N.eqb_eq in E. subst. cbn. repeat split; lia.
+  - destruct (index_dot s) as [q|]; cbn [option_map]; [|discriminate].
+    intros H. injection H as <-. destruct (IH q eq_refl) as (H1 & H2 & H3).
+    cbn [length nth_error firstn no_dot]. rewrite E, H3. repeat split; auto; lia.
+Qed.
+
+Lemma fld_from_nodot i s acc : no_dot s = true -> Spec.find_last_dot_from i s acc = acc.
+Proof.
+  revert i acc. induction s as [|c s IH]; intros i acc; cbn [no_dot Spec.find_last_dot_from]; [reflexivity|].
+  intros H. apply andb_true_iff in H. destruct H as [H1 H2]. apply negb_true_iff in H1. rewrite H1. now apply IH.
+Qed.
+
+Lemma fld_from_app i a b acc :
+  Spec.find_last_dot_from i (a ++ dot :: b) acc = Spec.find_last_dot_from (i + length a + 1) b (Some (i + length a)%nat).
+Proof.
+  revert i acc. induction a as [|c a IH]; intros i acc; cbn [app Spec.find_last_dot_from length].
+  - rewrite N.eqb_refl. f_equal; [lia|f_equal; lia].
+  - rewrite IH. f_equal; [lia|f_equal; lia].
+Qed.
+
+Lemma fld_from_range i s j r : Spec.find_last_dot_from i s (Some j) = Some r ->
+  r = j \/ (i <= r < i + length s)%nat.
+Proof.
+  revert i j. induction s as [|c s IH]; intros i j; cbn [Spec.find_last_dot_from length].
+  - intros H. injection H as <-. auto.
+  - destruct (N.eqb c dot); intros H; apply IH in H; destruct H as [H|H]; subst; auto; right; lia.
+Qed.
+
+Lemma fld_from_range_none i s r : Spec.find_last_dot_from i s None = Some r -> (i <= r < i + length s)%nat.
+Proof.
+  revert i. induction s as [|c s IH]; intros i; cbn [Spec.find_last_dot_from length]; [discriminate|].
+  destruct (N.eqb c dot); intros H.
+  - apply fld_from_range in H. destruct H as [H|H]; lia.
+  - apply IH in H. lia.
+Qed.
+
+Lemma fld_lt s i : Spec.find_last_dot s = Some i -> (i < length s)%nat.
+Proof. unfold Spec.find_last_dot. intros H. apply fld_from_range_none in H. lia. Qed.
+
+Lemma fld_nodot s : no_dot s = true -> Spec.find_last_dot s = None.
+Proof. intros H. unfold Spec.find_last_dot. now apply fld_from_nodot. Qed.
+
+Lemma fld_app_nodot a c : no_dot c = true -> Spec.find_last_dot (a ++ dot :: c) = Some (length a).
+Proof. intros H. unfold Spec.find_last_dot. rewrite fld_from_app. rewrite fld_from_nodot; [|assumption]. reflexivity. Qed.
+
+Lemma fld_app_ge a b : exists i, Spec.find_last_dot (a ++ dot :: b) = Some i /\ (length a <= i < length a + 1 + length b)%nat.
+Proof.
+  unfold Spec.find_last_dot. rewrite fld_from_app. cbn [plus].
+  destruct (Spec.find_last_dot_from (length a + 1) b (Some (length a))) as [r|] eqn:E.
+  - exists r. split; [reflexivity|]. apply fld_from_range in E. lia.
+  - exfalso. revert E. generalize (length a + 1)%nat (length a). clear. induction b as [|c b IH]; intros i j; cbn [Spec.find_last_dot_from].
+    + discriminate.
+    + destruct (N.eqb c dot); apply IH.
+Qed.
+
+(* ------------------------------------------------------------------ the first component *)
+Lemma starts_index nm : starts_with_dot nm = false -> index_dot nm <> Some O.
+Proof.
+  destruct nm as [|c r]; cbn [starts_with_dot index_dot]; [discriminate|].
+  intros ->. destruct (index_dot r); cbn; discriminate.
+Qed.
+
+Lemma first_name_part nm : starts_with_dot nm = false -> first_name nm = Spec.first_part nm.
+Proof.
+  intros H. apply starts_index in H. unfold first_name, Spec.first_part.
+  destruct (index_dot nm) as [[|p]|]; [contradiction|reflexivity|reflexivity].
+Qed.
+
+Lemma first_part_compound nm :
+  (length (Spec.first_part nm) <? length nm)%nat = negb (name_eqb (Spec.first_part nm) nm).
+Proof.
+  unfold Spec.first_part. destruct (index_dot nm) as [p|] eqn:E.
+  - apply index_dot_some in E. destruct E as (H1 & _ & _).
+    assert (L : length (firstn p nm) = p) by (rewrite firstn_length; lia).
+    rewrite L. replace (p <? length nm)%nat with true by (symmetry; apply Nat.ltb_lt; lia).
+    symmetry. apply negb_true_iff. apply name_eqb_neq. intros H. rewrite H in L. lia.
+  - rewrite Nat.ltb_irrefl, name_eqb_refl. reflexivity.
+Qed.
+
+Lemma first_part_skipn nm : Spec.first_part nm ++ skipn (length (Spec.first_part nm)) nm = nm.
+Proof.
+  unfold Spec.first_part. destruct (index_dot nm) as [p|] eqn:E.
+  - apply index_dot_some in E. destruct E as (H1 & _ & _).
+    rewrite firstn_length. replace (Nat.min p (length nm)) with p by lia. apply firstn_skipn.
+  - rewrite skipn_all. apply app_nil_r.
+Qed.
+
+Lemma first_part_nodot nm : no_dot nm = true -> Spec.first_part nm = nm.
+Proof. intros H. unfold Spec.first_part. apply index_dot_none in H. now rewrite H. Qed.
+
+Lemma first_part_eq_nodot nm : name_eqb (Spec.first_part nm) nm = true <-> no_dot nm = true.
+Proof.
+  split; intros H.
+  - unfold Spec.first_part in H. destruct (index_dot nm) as [p|] eqn:E; [|now apply index_dot_none].
+    apply index_dot_some in E. destruct E as (H1 & _ & _). apply name_eqb_eq in H.
+    assert (L : length (firstn p nm) = p) by (rewrite firstn_length; lia). rewrite H in L. lia.
+  - rewrite first_part_nodot by assumption. apply name_eqb_refl.
+Qed.
+
+(* ------------------------------------------------------------------ components *)
+Lemma simple_inv c : simple c = true -> c <> [] /\ no_dot c = true.
+Proof.
+  unfold simple. intros H. apply andb_true_iff in H. destruct H as [H1 H2]. split; [|assumption].
+  intros ->. discriminate.
+Qed.
+
+Definition all_simple (cs : list name) : Prop := Forall (fun c => simple c = true) cs.
+
+Lemma all_simple_forallb cs : forallb simple cs = true <-> all_simple cs.
+Proof. unfold all_simple. rewrite forallb_forall, Forall_forall. tauto. Qed.
+
+Lemma join_cons c cs : cs <> [] -> join_dots (c :: cs) = c ++ dot :: join_dots cs.
+Proof. destruct cs; [contradiction|reflexivity]. Qed.
+
+Lemma join_snoc cs c : cs <> [] -> join_dots (cs ++ [c]) = join_dots cs ++ dot :: c.
+Proof.
+  induction cs as [|x cs IH]; [contradiction|]. intros _. destruct cs as [|y cs].
+  - reflexivity.
+  - change ((x :: y :: cs) ++ [c]) with (x :: ((y :: cs) ++ [c])).
+    rewrite join_cons by (destruct cs; discriminate). rewrite IH by discriminate.
+    rewrite join_cons by discriminate. now rewrite <- app_assoc.
+Qed.
+
+Lemma join_nil_iff cs : all_simple cs -> (join_dots cs = [] <-> cs = []).
+Proof.
+  intros H. split; [|now intros ->]. destruct cs as [|c cs]; [reflexivity|].
+  inversion H as [|? ? Hc _]. apply simple_inv in Hc. destruct Hc as [Hc _].
+  destruct cs; cbn [join_dots]; intros E; [contradiction|]. destruct c; [contradiction|discriminate].
+Qed.
+
+Lemma join_no_lead cs : all_simple cs -> starts_with_dot (join_dots cs) = false.
+Proof.
+  intros H. destruct cs as [|c cs]; [reflexivity|]. inversion H as [|? ? Hc _].
+  apply simple_inv in Hc. destruct Hc as [Hc Hd]. destruct c as [|x c]; [contradiction|].
+  cbn [no_dot] in Hd. apply andb_true_iff in Hd. destruct Hd as [Hd _]. apply negb_true_iff in Hd.
+  destruct cs; cbn [join_dots app starts_with_dot]; assumption.
+Qed.
+
+Lemma app_no_lead a b : a <> [] -> starts_with_dot a = false -> starts_with_dot (a ++ b) = false.
+Proof. destruct a; [contradiction|]. intros _ H. exact H. Qed.
+
+Lemma qualify_join cs c : all_simple cs -> qualify (join_dots cs) c = join_dots (cs ++ [c]).
+Proof.
+  intros H. unfold qualify. destruct cs as [|x cs]; [reflexivity|].
+  rewrite join_snoc by discriminate.
+  destruct (join_dots (x :: cs)) eqn:E; [|reflexivity].
+  apply join_nil_iff in E; [discriminate|assumption].
+Qed.
+
+Lemma split_acc_nonempty s acc : split_dots_acc s acc <> [].
+Proof. revert acc. induction s as [|c s IH]; intros acc; cbn [split_dots_acc]; [discriminate|]. destruct (N.eqb c dot); [discriminate|apply IH]. Qed.
+
+Lemma join_split_acc s acc : join_dots (split_dots_acc s acc) = rev acc ++ s.
+Proof.
+  revert acc. induction s as [|c s IH]; intros acc; cbn [split_dots_acc].
+  - cbn. now rewrite app_nil_r.
+  - destruct (N.eqb c dot) eqn:E.
+    + apply N.eqb_eq in E. subst. rewrite join_cons by apply split_acc_nonempty. rewrite IH. reflexivity.
+    + rewrite IH. cbn [rev]. now rewrite <- app_assoc.
+Qed.
+
+Lemma pkg_ok_comps p : pkg_ok p = true -> all_simple (pkg_comps p) /\ join_dots (pkg_comps p) = p.
+Proof.
+  unfold pkg_ok, pkg_comps. destruct p as [|x p]; cbn [is_nil orb].
+  - intros _. split; [constructor|reflexivity].
+  - intros H. split; [now apply all_simple_forallb|]. unfold split_dots. now rewrite join_split_acc.
+Qed.
+
+(* non-empty prefixes of a component list, longest first *)
+Fixpoint npd_rev (r : list name) : list (list name) :=
+  match r with
+  | [] => []
+  | c :: r' => rev (c :: r') :: npd_rev r'
+  end.
+Definition npd (cs : list name) : list (list name) := npd_rev (rev cs).
+
+Lemma npd_snoc cs c : npd (cs ++ [c]) = (cs ++ [c]) :: npd cs.
+Proof. unfold npd. rewrite rev_unit. cbn [npd_rev]. f_equal. change (c :: rev cs) with (rev (rev (c :: rev cs))). rewrite rev_involutive. cbn [rev]. now rewrite rev_involutive. Qed.
+
+Lemma npd_nil : npd [] = [].
+Proof. reflexivity. Qed.
+
+Lemma npd_all_simple cs p : all_simple cs -> In p (npd cs) -> all_simple p /\ p <> [].
+Proof.
+  induction cs as [|c cs IH] using rev_ind; [contradiction|].
+  intros H. rewrite npd_snoc. intros [<-|Hin].
+  - split; [assumption|]. destruct cs; discriminate.
+  - apply IH; [|assumption]. unfold all_simple in *. apply Forall_app in H. tauto.
+Qed.
+
+(* ------------------------------------------------------------------ CreatePrefixList *)
+Fixpoint dps (done rest : name) : list name :=
+  match rest with
+  | [] => []
+  | c :: r => if N.eqb c dot then done :: dps (done ++ [c]) r else dps (done ++ [c]) r
+  end.
+
+Lemma upd_app {A} (l1 : list A) x l2 y : upd (l1 ++ x :: l2) (length l1) y = l1 ++ y :: l2.
+Proof. induction l1 as [|a l1 IH]; cbn [app length upd]; [reflexivity|]. now rewrite IH. Qed.
+
+Lemma fill_spec pkg : forall rest done mid tail a0,
+  pkg = done ++ rest -> length mid = count_dots rest ->
+  fill_prefixes pkg (length done) rest (count_dots rest) (a0 :: mid ++ tail)
+  = a0 :: rev (dps done rest) ++ tail.
+Proof.
+  induction rest as [|c r IH]; intros done mid tail a0 Hp Hl; cbn [fill_prefixes count_dots dps].
+  - cbn [count_dots] in Hl. destruct mid; [reflexivity|discriminate].
+  - cbn [count_dots] in Hl. destruct (N.eqb c dot) eqn:E.
+    + destruct (exists_last (l := mid)) as (mid' & x & ->); [intros ->; discriminate|].
+      rewrite app_length in Hl. cbn [length] in Hl.
+      assert (Hl' : length mid' = count_dots r) by lia.
+      replace (S (count_dots r) - 1)%nat with (count_dots r) by lia.
+      assert (F : firstn (length done) pkg = done).
+      { rewrite Hp. rewrite firstn_app, Nat.sub_diag, firstn_all. cbn. apply app_nil_r. }
+      rewrite F.
+      replace (a0 :: (mid' ++ [x]) ++ tail) with ((a0 :: mid') ++ x :: tail) by (cbn; now rewrite <- app_assoc).
+      replace (S (count_dots r)) with (length (a0 :: mid')) by (cbn; lia).
+      rewrite upd_app. cbn [app].
+      replace (S (length done)) with (length (done ++ [c])) by (rewrite app_length; cbn; lia).
+      rewrite (IH (done ++ [c]) mid' (done :: tail) a0); [|rewrite Hp, <- app_assoc; reflexivity|assumption].
+      cbn [rev]. now rewrite <- app_assoc.
+    + replace (S (length done)) with (length (done ++ [c])) by (rewrite app_length; cbn; lia).
+      apply IH; [rewrite Hp, <- app_assoc; reflexivity|assumption].
+Qed.
+
+Lemma dps_nodot done rest : count_dots rest = O -> dps done rest = [].
+Proof.
+  revert done. induction rest as [|c r IH]; intros done; cbn [count_dots dps]; [reflexivity|].
+  destruct (N.eqb c dot); [discriminate|apply IH].
+Qed.
+
+Lemma repeat_snoc {A} (x : A) n : repeat x (S n) = repeat x n ++ [x].
+Proof. induction n as [|n IH]; [reflexivity|]. cbn [repeat app] in *. now rewrite <- IH. Qed.
+
+Lemma cpl_general pkg : pkg <> [] -> create_prefix_list pkg = pkg :: rev (dps [] pkg) ++ [[]].
+Proof.
+  intros H. unfold create_prefix_list. destruct pkg as [|x p] eqn:Ep; [contradiction|]. rewrite <- Ep.
+  destruct (count_dots pkg) as [|n] eqn:En.
+  - rewrite dps_nodot by assumption. reflexivity.
+  - replace (S n + 2)%nat with (S (S (S n))) by lia.
+    change (repeat [] (S (S (S n)))) with (@nil N :: repeat [] (S (S n))). rewrite (repeat_snoc (@nil N) (S n)).
+    rewrite <- En. change O with (length (@nil N)).
+    rewrite (fill_spec pkg pkg [] (repeat [] (count_dots pkg)) [[]] []); [reflexivity|reflexivity|apply repeat_length].
+Qed.
+
+Lemma dps_app done a b : dps done (a ++ b) = dps done a ++ dps (done ++ a) b.
+Proof.
+  revert done. induction a as [|c a IH]; intros done; cbn [app dps].
+  - now rewrite app_nil_r.
+  - rewrite IH, <- app_assoc. cbn [app]. destruct (N.eqb c dot); reflexivity.
+Qed.
+
+Lemma count_dots_nodot s : no_dot s = true -> count_dots s = O.
+Proof.
+  induction s as [|c s IH]; cbn [no_dot count_dots]; [reflexivity|].
+  intros H. apply andb_true_iff in H. destruct H as [H1 H2]. apply negb_true_iff in H1. rewrite H1. auto.
+Qed.
+
+Lemma dps_join cs : all_simple cs -> cs <> [] ->
+  join_dots cs :: rev (dps [] (join_dots cs)) = map join_dots (npd cs).
+Proof.
+  induction cs as [|c cs IH] using rev_ind; [contradiction|]. intros H _.
+  unfold all_simple in H. apply Forall_app in H. destruct H as [Hcs Hc]. inversion Hc as [|? ? Hc' _]. subst.
+  apply simple_inv in Hc'. destruct Hc' as [_ Hd].
+  destruct cs as [|x cs'].
+  - cbn [app join_dots]. rewrite dps_nodot by now apply count_dots_nodot. reflexivity.
+  - rewrite npd_snoc. cbn [map]. f_equal. rewrite <- IH by (assumption || discriminate).
+    rewrite join_snoc by discriminate. rewrite dps_app. cbn [dps app]. rewrite N.eqb_refl.
+    rewrite (dps_nodot _ c) by now apply count_dots_nodot. rewrite rev_app_distr. reflexivity.
+Qed.
+
+(* the list CreatePrefixList returns for a package with components cs: every non-empty prefix,
+   longest first, then the empty string *)
+Definition prefixes_desc (cs : list name) : list (list name) := npd cs ++ [[]].
+
+Lemma create_prefix_list_spec_lemma cs : all_simple cs ->
+  create_prefix_list (join_dots cs) = map join_dots (prefixes_desc cs).
+Proof.
+  intros H. unfold prefixes_desc. rewrite map_app. cbn [map join_dots].
+  destruct cs as [|c cs].
+  - reflexivity.
+  - rewrite cpl_general.
+    + rewrite <- dps_join by (assumption || discriminate). reflexivity.
+    + intros E. apply join_nil_iff in E; [discriminate|assumption].
+Qed.
